@@ -300,12 +300,27 @@ c08 = pool_prop(
     lambda tier: [("VipStoreMC", "VipStoreMC_peer_q.cfg")] + ([("VipPoolMC", "VipPoolMC_peer_q.cfg")] if tier == "quick" else [("VipPoolMC", "VipPoolMC_peer.cfg")]),
     weights=dict(peer=45, client=6, mode=10, update=20, sleep=12, close=5, reopen=5, reconnect=8, forged=2))
 
+def c09_binary(s, tier, work):
+    C.build(("real", "node"))
+    tp = os.path.join(work, "c09-binary.ndjson")
+    st = os.path.join(work, "c09-binary.status")
+    _, status, rc, out = C.run_sim({}, work, "c09-binary", binary="vipreal", args=["binconn", os.path.join(C.BIN, "vipnode"), tp, st])
+    if status != "OK":
+        raise C.Machinery("binconn did not finish: %r\n%s" % (status, out[-2000:]))
+    j = Job("c09-binary", None, "VipPoolTrace", "VipPoolTrace.cfg", "C09bin", binary="vipreal")
+    j.trace = tp
+    return [j]
+
+
 c09 = pool_prop(
     "c09", "C09",
     "seeded orders of connect, reconnect on a new connection, close-old, close-new and peer requests over 6 connections; "
-    "compared: NumRemotes after every operation and which connection each instruction is sent over",
+    "compared: NumRemotes after every operation and which connection each instruction is sent over; plus the built `vipnode pool` binary "
+    "(server.go): 3 reconnect / close scenarios x 5 ways a WebSocket connection can end (TCP drop, close frames 1000 / 1001 / 4000, close "
+    "frame without waiting for the echo), replies and instructions validated against the same VipPool functions",
     lambda tier: [("VipStoreMC", "VipStoreMC_peer_q.cfg")] + ([("VipPoolMC", "VipPoolMC_peer_q.cfg")] if tier == "quick" else [("VipPoolMC", "VipPoolMC_peer.cfg")]),
-    weights=dict(reconnect=25, close=18, reopen=15, peer=30, update=10, sleep=6, host=4, forged=2))
+    weights=dict(reconnect=25, close=18, reopen=15, peer=30, update=10, sleep=6, host=4, forged=2),
+    extra_jobs=c09_binary)
 
 
 def c05(pid, tier, work, replay):
